@@ -824,3 +824,10 @@ Definition post (s : st) : pr (desc * Z) :=
 Definition interp (t : tree) : pr (desc * Z) :=
   let+ s := do_statements st_init (kids t) in
   post s.
+
+(* the no-panic predicate of the theorems: the result is a description or the parser's error value *)
+Definition no_panic {A} (r : pr A) : Prop :=
+  match r with
+  | PPanic _ => False
+  | _ => True
+  end.
